@@ -47,13 +47,15 @@ INFO = dict(
                "injective map so that each joins the same rows of points/colours/tcoords, with no orphan vertex, and its edge "
                "slots, unique edges, point-graph edges and boundary flags are those of the kept triangles; whole-mesh areas / "
                "edge lengths are >= 0, invariant under A^T A = 1 plus translation and scale by s^2 / |s| for every s - for the "
-               "squares in Q and for the returned values in R (Real.sqrt, no contract parameter); face normals are unit, "
-               "perpendicular, follow rotations and do not depend on the uniform scale of the mesh, at EVERY scale, in R, and in "
-               "Q for every root satisfying the sqrt contract (the two forms are proved to coincide: normalize1_cast); vertex "
+               "squares in Q (whole meshes) and, per triangle / per 3-D edge of the HAND-WRITTEN real model of Props/C17Real.lean, "
+               "for the returned values in R (Real.sqrt, no contract parameter); in that real model face normals are unit, "
+               "perpendicular, follow rotations and do not depend on the uniform scale of the mesh, at EVERY scale; in Q the same "
+               "holds for every root satisfying the exact sqrt contract (the two forms coincide where the contract holds: "
+               "normalize1_cast) - a contract that only meshes with rational norms satisfy (see partial); vertex "
                "normals are, entry by entry, _normalize of the sum of the unit normals of the incident faces (unit when that sum "
                "is not zero, the zero row at a vertex without a face), independent of the triangle order, rotated with the mesh, "
-               "scale invariant, equal to the plane normal on flat meshes - for the coded three-pass scatter-add over Q and "
-               "over R; boundary_tri_index equals 'owns an edge of multiplicity 1' on every mesh (all-false exactly when no "
+               "scale invariant (real model and Q-with-contract), equal to the plane normal on flat meshes (Q-with-contract "
+               "only) - for the coded three-pass scatter-add on a floating point accumulator; boundary_tri_index equals 'owns an edge of multiplicity 1' on every mesh (all-false exactly when no "
                "such edge exists, e.g. closed meshes); the 3*n_tris edge_lengths slots are the unique_edge_lengths counted with "
                "multiplicity (sums; equal means under uniform multiplicity); unique edges are duplicate-free; grid "
                "triangulations are well formed; any history of geometry queries, masks, triangle masks and copies over mesh "
@@ -67,7 +69,10 @@ INFO = dict(
                "TexturedTriMesh.from_mask, trilist_to_adjacency_array, _normalize (IEEE 0/0 -> nan -> 0 included), "
                "compute_face_normals, compute_vertex_normals; mask_keeps_whole_triangles / renumber_consistent / "
                "mask_drops_orphans (payloads sliced with the orphan-corrected mask, per class: src_from_mask_slices) / boundary / "
-               "unique-edge / area / length / normal clauses are restated for the translated methods (src_* theorems).  On the "
+               "unique-edge clauses, 2-D areas and the rigid invariance of 3-D areas / edge lengths are restated for the "
+               "translated methods unconditionally (src_* theorems, on well-formed meshes: an index out of range raises in numpy "
+               "and drops the row in the model); the 3-D value / scaling / unit-normal clauses are restated for them only under "
+               "the exact-rational sqrt contract SqrtOn (see partial).  On the "
                "heap (objects and arrays as cells, the same four bodies translated a second time) the object returned by "
                "from_mask / from_tri_mask is new, holds the arrays the value-level method computes, carries the texture pixels "
                "and every landmark group with equal content, shares no array with anything that existed before (so in-place "
@@ -86,7 +91,18 @@ INFO = dict(
                "isin, unique, add.at, sort, reshape ... - a rule that mistranslated a primitive would make the proved model "
                "disagree with the real classes in the correspondence); float rounding (the model is exact: Q for what the driver executes, R for the returned values; "
                "inputs are small dyadic rationals so masking is bit exact and geometry agrees to 1e-9 relative in float64, "
-               "1e-4 in float32); the write table is measured on live objects (common.attr_writes) and the mechanism table "
+               "1e-4 in float32); DTYPES AND VIEWS are outside the vocabulary except where named: index arrays are naturals "
+               "(`.astype(np.int64)`, int(np.max), the void view of unique_edge_indices translate to the identity, so dropping "
+               "them translates identically and only the oracle's narrow-dtype / large-index families see it), "
+               "np.unique(view, return_index=True)[1] is read as ROW uniqueness (numpy gets that from the view) listed by first "
+               "occurrence (numpy: byte order of the rows; only the set is used), the points dtype is visible only as the dtype of "
+               "the vertex-normal accumulator (Np.zerosDT / addAtDT: an integer accumulator truncates); hand-written glue: the "
+               "dispatch genFromMask / genFromMaskH on the class (resting on suppliers_ok and on IsOf = which payload lists are "
+               "empty); the heap rules ASSERT freshness of function results and of boolean-index results (IVal.fresh / RVal.fresh) "
+               "rather than deriving it (a fast path returning its argument would be seen by the np.shares_memory observation "
+               "only); non-mutation of the receiver, class identity and texture identity are not clauses of the property text: "
+               "they are correspondence observations (broken tie), decided by the heap obligations and the measured write "
+               "table, not oracle failures; the write table is measured on live objects (common.attr_writes) and the mechanism table "
                "reads code objects (co_names): neither is derived from the source text.",
     rule="one case = one (mesh, mask) / (mesh, motion) / (triangle list) / (mesh, scale 2^k, storage dtype) / (mesh, history of "
          "queries, copies and masks); distinct = distinct (class, points, trilist, mask or motion or scale and dtype or history "
@@ -98,11 +114,31 @@ INFO = dict(
              "the regenerated table queryWrites_ok, measured on live objects rather than proved from the source; in the heap "
              "model of masking `obj.copy()` is a vocabulary rule (the deep copy that property C06 proves of Copyable.copy) and "
              "the PointCloud / Image / LandmarkManager objects hanging off a mesh are collapsed onto the arrays they hold; "
-             "np.sqrt is a parameter of the translated geometry (its contract is a hypothesis where needed: SqrtOn), the "
-             "IEEE specials of a division by zero are modelled, every other rounding is not",
+             "the IEEE specials of a division by zero are modelled, every other rounding is not",
+             "np.sqrt is a parameter sqrt : Rat -> Rat of the TRANSLATED geometry and of the Q model; its contract (SqrtOn / "
+             "RootsOf / IsRoot: sqrt q is the exact non-negative rational root) is satisfiable only on meshes whose squared norms "
+             "are rational squares (flat grids, hand-picked examples; NOT generic meshes: e.g. a cross product (0,-1,1)). Hence "
+             "src_tri_areas3 (value, s^2), src_edge_lengths3 (>= 0, |s|), src_tri_normals, src_vertex_normals, src_*_real and "
+             "the Q theorems face_normals_unit, face_normals_scale_invariant, vertex_normal_is_normalised_incident_sum, "
+             "vertex_normals_follow_rotation, flat_mesh_normals, normal_unit, area3_*_root, edge_length_scales_root are "
+             "vacuous on generic meshes; the hypothesis-free statements over R (Props/C17Real.lean) are about a HAND-WRITTEN "
+             "real model (faceNormalsR, vertexNormalsR, area3R, lenR: 3-D only, per triangle / edge), which the translated "
+             "code reaches only through that contract. Unconditional for the translated code on every mesh: all masking / "
+             "edge / boundary results, 2-D areas, rigid invariance of 3-D areas and edge lengths, the structure of "
+             "_normalize / compute_face_normals / compute_vertex_normals (= the Q model for every sqrt with RootZero). Making "
+             "the vocabulary scalar-generic with a Real.sqrt instance was not done",
+             "queries_pure, history_pure, history_objects_never_change hold by construction of the value-passing model (their "
+             "content for the real classes is the measured write table and the heap obligations); boundary_spec_manifold / "
+             "boundary_coded_* are about the ORIGINAL toggle loop that fix e6f02e4 removed from /repo (kept as the record of "
+             "that finding)",
              "subsampled_grid_triangulation / init_2d_grid / init_from_depth_image and as_pointgraph's graph construction are "
              "still transcribed (tied by the correspondence and the mechanism table), not translated"],
-    assumptions=["triangle lists index valid vertices and each triangle has three distinct vertex indices",
+    assumptions=["triangle lists index valid vertices and each triangle has three distinct vertex indices (src_tri_areas*, "
+                 "src_edge_lengths3, src_unique_edges_once carry no WF hypothesis because the model drops a row with an index out "
+                 "of range where numpy raises IndexError: read them on well-formed meshes)",
+                 "points arrays are floating point or int64 (generated: float64, float32, int64); narrower integer points "
+                 "overflow in np.cross / v ** 2 and are not generated; on the unchanged tree an integer points array makes "
+                 "vertex_normals() wrong (finding notes/fixes/C17-vertex-normals-integer-points.diff)",
                  "an all-true mask returns the mesh unchanged (vertices that had no triangle before masking are not "
                  "'left' without one by it); a mask keeping no whole triangle is outside the property's quantifier "
                  "(the code raises ValueError; checked as error-kind correspondence only)",
@@ -145,7 +181,6 @@ THEOREMS = [
     "MenpoModel.C17.normal_follows_rotation",
     "MenpoModel.C17.unit_normal_follows_rotation",
     "MenpoModel.C17.normal_unit",
-    "MenpoModel.C17.vertex_normal_unit",
     "MenpoModel.C17.boundary_flags_exactly",
     "MenpoModel.C17.boundary_fixed_eq_spec",
     "MenpoModel.C17.boundary_spec_manifold",
@@ -593,7 +628,8 @@ def mask_case(ctx, case, lines=None, pending=None, cid=None):
         rt = [tuple(int(v) for v in t) for t in res.trilist]
         rpnts = [tuple(r) for r in res.points.tolist()]
         ok = True
-        ok &= ctx.check(type(res) is type(mesh), site, "class-changed", "result is a %s" % type(res).__name__, rp)
+        if type(res) is not type(mesh):     # not stated by the property text: an observation, not an oracle failure
+            ctx.mismatch("mask/class", "result is a %s, the receiver a %s" % (type(res).__name__, type(mesh).__name__), rp)
         ok &= ctx.check(len(rt) == len(kept), site, "triangle-count",
                         "%d triangles kept, %d triangles have all their vertices kept by the mask" % (len(rt), len(kept)), rp)
         valid = all(0 <= v < len(rpnts) for t in rt for v in t)
@@ -603,13 +639,15 @@ def mask_case(ctx, case, lines=None, pending=None, cid=None):
             got = Counter(tuple(rpnts[v] for v in t) for t in rt)
             ok &= ctx.check(want == got, site, "triangle-coordinates",
                             "kept triangles do not join the same three coordinates as before", rp)
-            if all_true:
+            used_vertices = sorted({v for t in kept for v in t})
+            exp_vertices = used_vertices
+            if all_true and len(rpnts) == n:
+                # the text says "drops vertices left without a triangle": with an all-true mask both readings are accepted
+                # (nothing is 'left' without a triangle by this mask: the code's fast path; or pre-existing orphans go too)
                 exp_vertices = list(range(n))
-            else:
-                exp_vertices = sorted({v for t in kept for v in t})
             ok &= ctx.check(len(rpnts) == len(exp_vertices), site, "vertex-count",
                             "%d vertices in the result, %d vertices belong to a kept triangle" % (len(rpnts), len(exp_vertices)), rp)
-            if not all_true:
+            if exp_vertices is used_vertices:
                 usedv = {v for t in rt for v in t}
                 ok &= ctx.check(usedv == set(range(len(rpnts))), site, "orphan-kept",
                                 "the result contains a vertex that belongs to no triangle", rp)
@@ -625,10 +663,11 @@ def mask_case(ctx, case, lines=None, pending=None, cid=None):
                 rx = [tuple(r) for r in res.tcoords.points.tolist()]
                 good = len(rx) == len(rpnts) and all(p in where and rx[j] == tcs[where[p]] for j, p in enumerate(rpnts))
                 ok &= ctx.check(good, site, "tcoords-detached", "a vertex does not carry its own texture coordinate after masking", rp)
-                ok &= ctx.check(np.array_equal(res.texture.pixels, mesh.texture.pixels), site, "texture-changed",
-                                "the texture image changed", rp)
-        ok &= ctx.check(np.array_equal(mesh.points, before[0]) and np.array_equal(mesh.trilist, before[1]), site,
-                        "receiver-mutated", "masking changed the mesh it was called on", rp)
+                if not np.array_equal(res.texture.pixels, mesh.texture.pixels):      # not in the text: observation
+                    ctx.mismatch("mask/texture", "the texture image changed", rp)
+        if not (np.array_equal(mesh.points, before[0]) and np.array_equal(mesh.trilist, before[1])):
+            # non-mutation of the receiver is not a clause of C17's text: a broken tie (heap obligations), not an oracle failure
+            ctx.mismatch("mask/receiver-mutated", "masking changed the mesh it was called on", rp)
         if valid and rt:
             # the masked mesh answers geometry queries as a mesh freshly built from its own points and triangles
             from menpo.shape import TriMesh
@@ -820,8 +859,8 @@ def geom_case(ctx, case, lines=None, pending=None, cid=None):
     ok &= ctx.check(all(x >= 0 for x in a0) and all(x >= 0 for x in a1), site, "negative-area", "a triangle area is negative", rp)
     ok &= ctx.check(all(x >= 0 for x in e0) and all(x >= 0 for x in e1), site, "negative-length", "an edge length is negative", rp)
     ex_a = [fsqrt(ex_cross_sq(P[t_[0]], P[t_[1]], P[t_[2]])) for t_ in T]
-    ok &= ctx.check(all(common.close(x, y, asc, TOL) for x, y in zip(a0, ex_a)), site, "area-value",
-                    "tri_areas differs from the exact area of the triangle", rp)
+    if not all(common.close(x, y, asc, TOL) for x, y in zip(a0, ex_a)):      # the VALUE is not demanded by the text
+        ctx.mismatch("geom/area-value", "tri_areas differs from the exact area of the triangle", rp)
     ok &= ctx.check(all(common.close(y, fac * fac * x, asc, TOL) for x, y in zip(a0, a1)), site,
                     "area-not-invariant" if s == 1 else "area-scaling",
                     "areas after the motion are not %s the areas before" % ("equal to" if s == 1 else "s^2 times"), rp)
@@ -829,8 +868,8 @@ def geom_case(ctx, case, lines=None, pending=None, cid=None):
     for t_ in T:
         for (i, j) in ((0, 1), (1, 2), (2, 0)):
             ex_e.append(fsqrt(sum((F(x) - F(y)) ** 2 for x, y in zip(P[t_[i]], P[t_[j]]))))
-    ok &= ctx.check(all(common.close(x, y, lsc, TOL) for x, y in zip(e0, ex_e)), site, "edge-length-value",
-                    "edge_lengths differs from the exact length of the edges AB, BC, CA", rp)
+    if not all(common.close(x, y, lsc, TOL) for x, y in zip(e0, ex_e)):      # neither value nor slot order is demanded
+        ctx.mismatch("geom/edge-length-value", "edge_lengths differs from the exact length of the edges AB, BC, CA", rp)
     ok &= ctx.check(all(common.close(y, fac * x, lsc, TOL) for x, y in zip(e0, e1)), site,
                     "length-not-invariant" if s == 1 else "length-scaling",
                     "edge lengths after the motion are not %s the lengths before" % ("equal to" if s == 1 else "s times"), rp)
@@ -990,7 +1029,7 @@ def compare_geom(ctx, case, obs, model, cid):
                 want = [sum(Af[i][c] * obs["v0"][v][c] for c in range(3)) for i in range(3)]
             else:
                 want = obs["v0"][v]
-            if not all(abs(x - y) <= 1e-9 for x, y in zip(want, obs["v1"][v])):
+            if not all(abs(x - y) <= max(1e-9, 1e-10 / r) for x, y in zip(want, obs["v1"][v])):   # direction error ~ delta / r
                 ctx.mismatch("vertex_normals/motion", "vertex %d: normal of the moved mesh %r, moved normal %r"
                              % (v, obs["v1"][v], want), rp)
                 break
@@ -1305,12 +1344,13 @@ def sliver_case(ctx, case, lines=None, pending=None, cid=None):
         tf0, tf1 = 32 * U_DBL * cond0 + 1e-13, 32 * U_DBL * cond1 + 1e-13
         h0 = 2.0 * A0 / math.sqrt(float(e0[3]))                       # the smallest altitude (unit scale)
         tin = 64 * U_DBL * M / h0
-        ok &= ctx.check(abs(a0[j] - A0) <= tf0 * A0, site, "area-value",
-                        "tri_areas()[%d] = %r, the exact area of that triangle is %r (relative error %.3g, conditioning allows %.3g)"
-                        % (j, a0[j], A0, abs(a0[j] - A0) / A0, tf0), rp)
-        ok &= ctx.check(abs(a1[j] - A1) <= tf1 * A1, site, "area-value",
-                        "after the motion tri_areas()[%d] = %r, the exact area of the moved triangle is %r (relative error %.3g, "
-                        "conditioning allows %.3g)" % (j, a1[j], A1, abs(a1[j] - A1) / A1, tf1), rp)
+        # the VALUE of an area is not demanded by the property text (>= 0, invariance, s^2 are): observations
+        if not abs(a0[j] - A0) <= tf0 * A0:
+            ctx.mismatch("sliver/area-value", "tri_areas()[%d] = %r, the exact area of that triangle is %r (relative error %.3g, "
+                         "conditioning allows %.3g)" % (j, a0[j], A0, abs(a0[j] - A0) / A0, tf0), rp)
+        if not abs(a1[j] - A1) <= tf1 * A1:
+            ctx.mismatch("sliver/area-value", "after the motion tri_areas()[%d] = %r, the exact area of the moved triangle is %r "
+                         "(relative error %.3g, conditioning allows %.3g)" % (j, a1[j], A1, abs(a1[j] - A1) / A1, tf1), rp)
         ok &= ctx.check(abs(a1[j] - fac2 * a0[j]) <= (tf0 + tf1 + tin) * fac2 * A0, site,
                         "area-not-invariant" if s == 1 else "area-scaling",
                         "triangle %d: area %r before, %r after the motion (expected %s; relative change %.3g, conditioning allows %.3g)"
@@ -1319,8 +1359,8 @@ def sliver_case(ctx, case, lines=None, pending=None, cid=None):
         worst = max(worst, abs(a0[j] - A0) / (tf0 * A0), abs(a1[j] - A1) / (tf1 * A1),
                     abs(a1[j] - fac2 * a0[j]) / ((tf0 + tf1 + tin) * fac2 * A0))
     ctx.notes["sliver_worst_error_over_tolerance"] = max(ctx.notes.get("sliver_worst_error_over_tolerance", 0.0), round(worst, 4))
-    ok &= ctx.check(abs(m0 - fmean(a0)) <= 1e-12 * max(a0) and abs(m1 - fmean(a1)) <= 1e-12 * max(a1), site, "mean-area",
-                    "mean_tri_area is not the mean of tri_areas", rp)
+    if not (abs(m0 - fmean(a0)) <= 1e-12 * max(a0) and abs(m1 - fmean(a1)) <= 1e-12 * max(a1)):
+        ctx.mismatch("sliver/mean-area", "mean_tri_area is not the mean of tri_areas", rp)
     ctx.count("sliver:%dd:%s" % (d, kind))
     ctx.count("sliver-shape:" + case["shape"])
     for th in case.get("thick", []):
@@ -1353,6 +1393,67 @@ def compare_sliver(ctx, case, obs, model, cid):
         if abs(obs["a0"][j] - A0) > (32 * U_DBL * cond0 + 1e-13) * A0:
             ctx.mismatch("sliver/tri_areas", "triangle %d: model %r vs implementation %r" % (j, A0, obs["a0"][j]), rp)
             return
+
+
+# ================================================================================ family: intpts
+#
+# Meshes whose `points` array has an INTEGER dtype (a TriMesh can be built from one and keeps it): the property speaks
+# of all TriMesh instances.  Judged: areas / edge lengths finite and non-negative, triangle normals of non-degenerate
+# triangles unit, vertex normals unit wherever the incident unit normals do not cancel (audit finding F2).
+
+INT_DTYPES = ("int64",)      # narrower integer dtypes overflow in np.cross / v ** 2 (disclosed in INFO assumptions)
+
+
+def gen_intpts_case(rng):
+    case = gen_mesh(rng, 3, allow_orphans=False)
+    probe = dict(case, attrs={}, cls="plain")
+    build(probe)
+    pts = [[float(round(x * 8)) for x in r] for r in probe["points"]]        # multiples of 1/8 -> integers
+    case = dict(shape="int:" + case["shape"].split(":")[0], d=3, cls="plain", attrs={}, points=pts, tris=probe["tris"],
+                pdtype=rng.choice(INT_DTYPES))
+    if "trilist_dtype" in probe:
+        case["trilist_dtype"] = probe["trilist_dtype"]
+    return storage(rng, case)
+
+
+def intpts_case(ctx, case, lines=None, pending=None, cid=None):
+    import numpy as np
+    site = "C17/integer-points"
+    case["family"] = "intpts"
+    rp = dict(slim(case), call=replay_code(dict(case, family="geom", motion=dict(A=[], t=[]))))
+    P, T = case["points"], case["tris"]
+    try:
+        mesh = build(case)
+        a, e = _np_rows(mesh.tri_areas()), _np_rows(mesh.edge_lengths())
+        n, v = _np_rows(mesh.tri_normals()), _np_rows(mesh.vertex_normals())
+    except Exception as ex:   # noqa: BLE001
+        ctx.fail(site, "raises:" + type(ex).__name__, "a geometry query of a mesh with %s points raised %s: %s"
+                 % (case["pdtype"], type(ex).__name__, str(ex)[:80]), rp)
+        return True
+    ctx.count("intpts:" + str(mesh.points.dtype))
+    if not str(mesh.points.dtype).startswith("int"):
+        ctx.count("intpts:constructor-converted-to-float")
+    ok = ctx.check(all(math.isfinite(x) and x >= 0 for x in a + e), site, "negative-or-not-finite",
+                   "an area or edge length of an integer-points mesh is negative or not finite", rp)
+    nondeg = [ex_cross_sq(P[t_[0]], P[t_[1]], P[t_[2]]) > 0 for t_ in T]
+    for j, t_ in enumerate(T):
+        if nondeg[j]:
+            ln = math.sqrt(sum(x * x for x in n[j]))
+            ok &= ctx.check(abs(ln - 1.0) <= 1e-9, site, "normal-not-unit",
+                            "triangle normal %d of a mesh with %s points has length %r" % (j, case["pdtype"], ln), rp)
+    if ok:
+        for vtx in range(len(P)):
+            acc = [sum(n[j][q] * t_.count(vtx) for j, t_ in enumerate(T) if nondeg[j]) for q in range(3)]
+            if math.sqrt(sum(x * x for x in acc)) < 1e-3:
+                ctx.count("intpts:vertex-normal-cancels-or-orphan-skipped")
+                continue
+            ln = math.sqrt(sum(x * x for x in v[vtx]))
+            ok &= ctx.check(abs(ln - 1.0) <= 1e-9, site, "vertex-normal-not-unit",
+                            "vertex normal %d of a mesh with %s points has length %r (vertex_normals()[%d] = %r); the incident "
+                            "unit normals add up to %r" % (vtx, case["pdtype"], ln, vtx, v[vtx], acc), rp)
+            if not ok:
+                break
+    return True
 
 
 # ================================================================================ family: history
@@ -1484,9 +1585,9 @@ def history_case(ctx, case, lines=None, pending=None, cid=None):
                                                        by="tri" if by_tri else "vertex", family="mask")))
         # no call changes an object that exists
         for k_, (fp, ft) in enumerate(frozen):
-            ctx.check(np.array_equal(objs[k_].points, fp) and np.array_equal(objs[k_].trilist, ft), site, "receiver-mutated",
-                      "step %d: object %d changed although it was only queried, masked or copied (history %r)"
-                      % (step, k_, trace[-8:]), srp)
+            if not (np.array_equal(objs[k_].points, fp) and np.array_equal(objs[k_].trilist, ft)):
+                ctx.mismatch("history/receiver-mutated", "step %d: object %d changed although it was only queried, masked or "
+                             "copied (history %r)" % (step, k_, trace[-8:]), srp)
         ctx.count("history:step-%d" % step)
     if objs and not observe(len(objs) - 1, "e"):
         return True
@@ -1804,7 +1905,7 @@ def shrink_tris(case, still_fails):
 
 def run_family(ctx, fam, case, lines=None, pending=None, cid=None):
     f = {"mask": mask_case, "geom": geom_case, "bound": bound_case, "scale": scale_case, "history": history_case,
-         "sliver": sliver_case}[fam]
+         "sliver": sliver_case, "intpts": intpts_case}[fam]
     n_before = len(ctx.failures)
     known_before = dict(ctx.known_seen)
     nt = f(ctx, case, lines, pending, cid)
@@ -1842,7 +1943,8 @@ def _retry(gen):
 
 
 GEN = {"mask": _retry(gen_mask_case), "geom": _retry(gen_geom_case), "bound": _retry(gen_bound_case),
-       "scale": _retry(gen_scale_case), "history": _retry(gen_history_case), "sliver": _retry(gen_sliver_case)}
+       "scale": _retry(gen_scale_case), "history": _retry(gen_history_case), "sliver": _retry(gen_sliver_case),
+       "intpts": _retry(gen_intpts_case)}
 
 
 def large_index_cases(ctx, n_cases):
@@ -1933,7 +2035,7 @@ def search(ctx):
         if ctx.failures:
             return True
     for k in range(ctx.n(4000, 12000)):
-        fam = ("mask", "geom", "bound", "history", "mask", "geom", "bound", "scale", "sliver")[k % 9]
+        fam = ("mask", "geom", "bound", "history", "mask", "geom", "bound", "scale", "sliver", "intpts")[k % 10]
         run_family(ctx, fam, GEN[fam](rng))
         ctx.searched += 1
         if ctx.failures:
@@ -2024,18 +2126,19 @@ def prepare(ctx):
 
 def run(ctx):
     prepare(ctx)
-    ctx.trusted += ["contract: sqrt returns r >= 0 with r*r = x (areas, edge lengths, _normalize) — every generated case "
-                    "checks the implementation's roots against exact rational squares",
+    ctx.trusted += ["np.sqrt: the implementation's roots are compared in floating point (1e-9 relative) with the roots of the "
+                    "exact rational squares on every generated case; the Lean contract r >= 0, r*r = x is EXACT equality and is "
+                    "satisfiable only where the square is a rational square (INFO partial)",
                     "numpy indexing / isin / unique / add.at semantics (modelled in Core/C17Mesh.lean, exercised by the correspondence)"]
     rng = ctx.rng
     lines, pending = [], {}
     corpus(ctx, lines, pending)
-    plan = [("scale", ctx.n(40, 300)), ("sliver", ctx.n(120, 1500)), ("history", ctx.n(250, 2500)), ("mask", ctx.n(2000, 22000)),
+    plan = [("scale", ctx.n(40, 300)), ("sliver", ctx.n(120, 1500)), ("intpts", ctx.n(100, 1000)), ("history", ctx.n(250, 2500)), ("mask", ctx.n(2000, 22000)),
             ("geom", ctx.n(1000, 8000)), ("bound", ctx.n(1500, 12000))]
     for fam, cnt in plan:
         for k in range(cnt):
             case = GEN[fam](rng)
-            cid = "%s%d" % ({"scale": "z", "history": "h", "sliver": "v"}.get(fam, fam[0]), k)
+            cid = "%s%d" % ({"scale": "z", "history": "h", "sliver": "v", "intpts": "i"}.get(fam, fam[0]), k)
             nt = run_family(ctx, fam, case, lines, pending, cid)
             sample = {"family": fam, "class": case.get("cls"), "shape": case["shape"], "n_points": len(case["points"]),
                       "trilist": case["tris"][:6], "mask": case.get("mask"), "motion": (case.get("motion") or {}).get("kind")}
